@@ -701,6 +701,15 @@ def check_ordered(ctx, res, case, with_model=True):
     single = len(case['labels']) < 2
     where = W_ORDERED_ONE if single else f'models.{fam}'
     if 'err' in rr:
+        if single and rr['err'] == 'BiogemeError':
+            # fewer than two discrete values: refusing is the repaired behaviour (what the model does)
+            if with_model:
+                def cb_err(ans, case=case):
+                    if ans[0].get('error') != 'BiogemeError':
+                        res.diverge(f'{fam}: fewer than two discrete values', case, ans[0], 'BiogemeError', where=where)
+
+                ctx.batch.add_many(ordered_requests(case)[:1], cb_err)
+            return
         res.violate(f'{fam}: raises on a valid specification: {rr["msg"]}', case, rr['msg'], 'a probability per discrete value', where=where)
         return
     d = rr['ok']
